@@ -635,7 +635,7 @@ def translate(spec: Spec, structs: dict, tree: ast.Module):
     spec.guards = []
     node = find_def(tree, spec.path)
     tr = Translator(spec, structs)
-    own = [a.arg for a in node.args.args if a.arg != "self"]
+    own = [a.arg for a in node.args.args if a.arg not in ("self", "cls")]
     declared = [n for n, _ in spec.params]
     for p in own:
         if p not in declared and p not in spec.assume and (spec.first is None) and spec.arg_of is None:
